@@ -26,6 +26,7 @@ import (
 	"log"
 	"math/rand"
 	"path/filepath"
+	"reflect"
 	"sort"
 	"strings"
 	"time"
@@ -381,6 +382,10 @@ func (e *env) objects(c *gcase) *objects {
 		case "zeroinit":
 			gi.HasVal, gi.Val = true, 0
 		}
+		// if the index record has a field for scalability (a repaired walker), fill it
+		if f := reflect.ValueOf(&gi).Elem().FieldByName("Scalable"); f.IsValid() && f.Kind() == reflect.Bool && f.CanSet() {
+			f.SetBool(ix.SC)
+		}
 		o.shimIx = append(o.shimIx, gi)
 	}
 	return o
@@ -563,7 +568,11 @@ func (e *env) shape(c *gcase) string {
 }
 
 // neighbours lists the simpler cases next to c, plainest first: plain base,
-// one index dropped, one index replaced by the plainest form.
+// one index dropped, one index replaced by a plain integer literal. An operand
+// is never replaced by another non-plain form (say an SSA vector by a
+// zeroinitializer vector): the forms correspond to different arms of the
+// classifiers under test, and such a step could walk a new defect into the
+// minimal shape of a listed one and hide it.
 func neighbours(c *gcase) []*gcase {
 	var out []*gcase
 	if !(c.Base.K == "ptr" && c.Base.AS == 0) {
@@ -600,16 +609,6 @@ func neighbours(c *gcase) []*gcase {
 				break // already at least as plain
 			}
 			repl(p)
-		}
-		if ix.Vec > 0 {
-			if ix.SC { // the fixed vector of the same form
-				f := ix
-				f.SC = false
-				repl(f)
-			}
-			if ix.F != "zeroinit" { // the plainest operand of that type
-				repl(idx{F: "zeroinit", W: ix.W, Val: 0, Vec: ix.Vec, SC: ix.SC})
-			}
 		}
 	}
 	return out
